@@ -122,4 +122,28 @@ def Parent.gets : Parent → Nat → List Obs
 def Target.all : List Target := [.returns, .raisesUser, .raisesBase]
 def Async.all : List Async := [.raiseWte false, .raiseWte true, .kill]
 
+
+/-- Evaluate `check undisturbedState disturbedState` for **every** reachable arrival point `k` (line events
+    after the statement at line `start`, from which on the parent can call `terminate()`) and **every**
+    delay `d ≤ number of line events after k` of a deferred delivery (a larger delay means the exception is
+    never raised in the working thread, which `d = number of remaining events` already gives). -/
+def deferredAll (prog : List Stmt) (env : Env) (inputs : List Input) (start : Nat) (check : St → St → Bool) : Bool :=
+  match run prog env inputs none .kill with
+  | (st0, _) =>
+    let tr := st0.trace
+    let first := tr.idxOf start + 1
+    (List.range (tr.length - first)).all fun i =>
+      (List.range (tr.length - (first + i) + 1)).all fun d =>
+        match run prog env inputs (some (first + i)) (.deferred d) with
+        | (st, _) => check st0 st
+
+
+theorem deferredAll_mono {prog : List Stmt} {env : Env} {inputs : List Input} {start : Nat}
+    {f g : St → St → Bool} (h : ∀ a b, f a b = true → g a b = true)
+    (hf : deferredAll prog env inputs start f = true) : deferredAll prog env inputs start g = true := by
+  unfold deferredAll at *
+  simp only [List.all_eq_true] at *
+  intro i hi d hd
+  exact h _ _ (hf i hi d hd)
+
 end PwVerif.Lifecycle
